@@ -36,6 +36,8 @@ pub struct Scn {
 pub struct Obs {
     /// (task index, 's' start | 'f' finish, thread name)
     pub events: Vec<(usize, char, String)>,
+    /// scheduler ids of the threads that ran a task
+    pub task_threads: Vec<usize>,
     pub stop_returned: usize,
     pub dropped: bool,
 }
@@ -104,7 +106,13 @@ pub fn body(scn: &Scn, obs: &Arc<Mutex<Obs>>) {
                 };
                 pool.execute(move || {
                     let name = humphrey::verif::thread::verif_current_name().unwrap_or_else(|| "?".into());
-                    o.lock().unwrap().events.push((idx, 's', name.clone()));
+                    {
+                        let mut g = o.lock().unwrap();
+                        g.events.push((idx, 's', name.clone()));
+                        if let Some(t) = humphrey::verif::rt::my_tid() {
+                            g.task_threads.push(t);
+                        }
+                    }
                     match t {
                         Task::Ok => {}
                         Task::Panic => panic!("task panic (injected by the C08 harness)"),
@@ -196,12 +204,15 @@ pub fn check(scn: &Scn, r: &ExecResult, o: &Obs, choices: &[usize], s: &mut Stat
             }
         }
     }
-    // every worker thread has exited: only unnamed (recovery) threads may still be blocked, in recv
-    for (tid, name, want) in &r.blocked_at_end {
-        let ok = name.is_none() && matches!(want, Want::Recv(..));
-        if !ok {
-            s.violation(format!("{}: a worker thread never exits", class), || detail(&format!("thread {} name {:?} still blocked in {:?}", tid, name, want)));
-        }
+    // every worker thread has exited: at quiescence at most one thread per start() may still be blocked (the detached
+    // recovery thread, which waits for panics for ever), it must be waiting on a channel, and it must not be a
+    // thread that ever ran a task. (Deliberately independent of how the pool names its threads.)
+    let leftovers: Vec<&(usize, Option<String>, Want)> = r.blocked_at_end.iter().collect();
+    // one recovery thread per start()
+    let starts = scn.ops.iter().filter(|o| **o == Op::Start).count();
+    let bad = leftovers.len() > starts || leftovers.iter().any(|(tid, _, want)| !matches!(want, Want::Recv(..)) || o.task_threads.contains(tid));
+    if bad {
+        s.violation(format!("{}: a worker thread never exits", class), || detail(&format!("threads still blocked at quiescence: {:?}", r.blocked_at_end)));
     }
     s.outcome(format!(
         "ok tasks={} workers_used={} leftover_threads={}",
